@@ -90,6 +90,15 @@ Definition desc_eqb (a b : desc T) : bool :=
       end
   end.
 
+(* SurfaceT4.__hash__: the hash of the tuple (type, params) resp.
+   (type, params, tuple(t.flat), tuple(R.flat)); [h] hashes one number, [mix] is
+   the tuple hash (both are Python's; only their being functions matters) *)
+Definition desc_hash (h : T -> Z) (mix : list Z -> Z) (d : desc T) : Z :=
+  match dtrans d with
+  | None => mix [Z.of_N (dtype d); mix (map h (dparams d))]
+  | Some (t, r) => mix [Z.of_N (dtype d); mix (map h (dparams d)); mix (map h t); mix (map h r)]
+  end.
+
 (* sorted(surfs.items()): keys of a dict are distinct, so the tuple comparison
    never reaches the surfaces *)
 Fixpoint insert_sorted {V : Type} (kv : Z * V) (l : list (Z * V)) : list (Z * V) :=
